@@ -129,6 +129,15 @@ def r14_1(ctx):
             ctx.violated('R14.1', fi.qual, label, loop, 'no branch handles this case')
             continue
         stmts, facts, node = lst[0]
+        # a helper method the confirmed reference does not have (extracted from this function) is read as part of the branch
+        from sa import alpha as _alpha
+        extra = []
+        for s_ in stmts:
+            for c_ in ast.walk(s_):
+                if isinstance(c_, ast.Call) and isinstance(c_.func, ast.Attribute) and isinstance(c_.func.value, ast.Name) and c_.func.value.id == 'self' \
+                        and c_.func.attr in mpcls.methods and _alpha.is_new_function(mpcls.methods[c_.func.attr].qual):
+                    extra.extend(mpcls.methods[c_.func.attr].node.body)
+        stmts = list(stmts) + extra
         text = ' ; '.join(src(s) for s in stmts)
         if c == (True, True):
             distinguished = facts.get('1') is True and facts.get('2') is True
@@ -151,7 +160,10 @@ def r14_1(ctx):
             ok = 'add_to_shared' in text
             ctx.decide('R14.1', fi.qual, label, ok or None, node, 'the new dof joins the existing class of the other side')
     # helper keeps both tables in sync
-    h = ctx.prog.func(MP + '.join_dofs.<locals>.add_to_shared')
+    h = ctx.prog.maybe_func(MP + '.join_dofs.<locals>.add_to_shared') or ctx.prog.maybe_func(MP + '._add_to_shared')
+    if h is None:
+        ctx.undecided('R14.1', fi.qual, 'helper that adds a dof to a class', fi.node, 'not found under a known name')
+        return
     t = [src(s).replace(' ', '') for s in h.node.body if not (isinstance(s, ast.Expr) and isinstance(s.value, ast.Constant))]
     ok = 'self.shared_per_patch[p][i]=sd' in t and 'self.shared_dofs[sd].add((p,i))' in t
     ctx.decide('R14.1', h.qual, ' ; '.join(t), ok or None, h.node, 'dof -> class and class -> members are updated together')
